@@ -907,6 +907,28 @@ theorem composed_delivery_is_fifo_per_sender_with_the_same_fields (k k' : Nat) (
   simp only [Compose.accepts, Compose.running, Bool.and_eq_true] at ha
   exact ha.2
 
+/-- (nothing is lost on the SHARED wire) With the original alive and the proxy running, what was sent
+through reference `p` is exactly: what the original has received, then the frames addressed to `p`
+that are on the shared wire (oldest first, whatever other references' frames are between them),
+then the casts / calls still in the proxy's mailbox — in this order. -/
+theorem composed_nothing_is_lost_on_the_shared_wire (k k' : Nat) (ops : List Compose.Op) (p : Nat) :
+    let s := Compose.run (Compose.init k k') ops
+    let n := s.nets p
+    n.targetUp = true → Compose.accepts s p = true →
+      n.recvd ++ ((Pipe.contents (Compose.projPipe p s.fwd)).map (·.item) ++ n.mboxItems) = n.sent := by
+  intro s n ht ha
+  obtain ⟨nops, hn⟩ := (Compose.run_refines ops (Compose.init k k')).1 p
+  have hi := Compose.inv_run ops _ (Compose.inv_init k k')
+  have h1 := order_preserved k k' nops
+  have e : n = (Net.init k k').run nops := hn
+  dsimp only at h1
+  rw [← e] at h1
+  simp only [Compose.accepts, Compose.running, Bool.and_eq_true] at ha
+  have h2 := h1.2 ht ha.2
+  simp only [Net.inflight] at h2
+  rw [show n.fwd = Compose.projPipe p s.fwd from hi.fwd p] at h2
+  exact h2
+
 /-- (end to end, clause 3) Through any reference `p`: a caller only ever gets the answer the
 original gave to ITS call, at most once; and with the proxy running and everything drained every
 answer has reached its caller unless that caller had given up. -/
@@ -1169,6 +1191,7 @@ theorem extracted_payload_field_mapping :
 #print axioms C20.composed_wire_hands_each_frame_to_the_original_named_by_to
 #print axioms C20.composed_reply_goes_only_to_the_proxy_named_by_to
 #print axioms C20.composed_delivery_is_fifo_per_sender_with_the_same_fields
+#print axioms C20.composed_nothing_is_lost_on_the_shared_wire
 #print axioms C20.composed_replies_reach_exactly_their_caller
 #print axioms C20.composed_send_succeeds_iff_proxy_runs
 #print axioms C20.composed_transport_error_stops_every_reference
